@@ -2,6 +2,8 @@ package mon
 
 import (
 	"fmt"
+
+	"golang.org/x/net/html"
 	"math/rand"
 	"strings"
 
@@ -36,6 +38,7 @@ type wnDoc struct {
 	markers []wnMarker
 	hasSkip bool // contains at least one skipped region
 	feat    map[string]bool
+	tags    []string // intended tag sequence, e.g. "S:p", "E:p", "X:br"
 }
 
 var wnExclude = map[string]bool{"script": true, "style": true, "plaintext": true, "image": true, "html": true, "head": true, "body": true}
@@ -126,6 +129,11 @@ func (e *Env) wnRender(r *rand.Rand, forest []*wnNode, noise int) wnDoc {
 			if inside {
 				d.feat["in-skip:"+cat] = true
 			}
+			if n.selfCl {
+				d.tags = append(d.tags, "X:"+n.name)
+			} else {
+				d.tags = append(d.tags, "S:"+n.name)
+			}
 			g := &gen.Node{Name: n.name, Attrs: n.attrs, SelfCl: n.selfCl, NoEnd: true}
 			b.WriteString(gen.Serialize(r, []*gen.Node{g}, noise))
 			if oracle.Void[n.name] {
@@ -137,11 +145,39 @@ func (e *Env) wnRender(r *rand.Rand, forest []*wnNode, noise int) wnDoc {
 			}
 			walk(n.kids, childInside, append(path, cat))
 			b.WriteString("</" + n.name + ">")
+			d.tags = append(d.tags, "E:"+n.name)
 		}
 	}
 	walk(forest, false, nil)
 	d.src = b.String()
 	return d
+}
+
+// readAsIntended: does the tokenizer find exactly the intended tag sequence, and is it balanced?
+func (d *wnDoc) readAsIntended() bool {
+	toks := oracle.Tokens(d.src)
+	i := 0
+	for _, t := range toks {
+		if !t.IsTag() {
+			continue
+		}
+		k := "S:"
+		switch t.Type {
+		case html.EndTagToken:
+			k = "E:"
+		case html.SelfClosingTagToken:
+			k = "X:"
+		}
+		if i >= len(d.tags) || d.tags[i] != k+t.Name {
+			return false
+		}
+		i++
+	}
+	if i != len(d.tags) {
+		return false
+	}
+	ok, _ := oracle.Balanced(toks)
+	return ok
 }
 
 func wnFeatureSig(d *wnDoc) string {
@@ -157,9 +193,9 @@ func wnFeatureSig(d *wnDoc) string {
 }
 
 func c08Judge(cs *core.Case, env *Env, d *wnDoc, out string, lc core.LocalCounts) {
-	if ok, why := oracle.Balanced(oracle.Tokens(d.src)); !ok {
-		// the tokenizer does not read the document as the generator meant it
-		cs.Skip("generated input not well nested for the tokenizer: " + strings.SplitN(why, " ", 2)[0])
+	if !d.readAsIntended() {
+		// the tokenizer does not read the document as the generator meant it (serialiser noise)
+		cs.Skip("tokenizer reads the generated document differently from the intended tree")
 		return
 	}
 	lc["well_nested_inputs"]++
@@ -191,14 +227,12 @@ func c08Judge(cs *core.Case, env *Env, d *wnDoc, out string, lc core.LocalCounts
 }
 
 func c09Judge(cs *core.Case, env *Env, d *wnDoc, out string, lc core.LocalCounts) {
-	inT := oracle.Tokens(d.src)
-	ok, why := oracle.Balanced(inT)
-	if !ok {
-		cs.Skip("generated input not balanced for the checker: " + strings.SplitN(why, " ", 2)[0])
+	if !d.readAsIntended() {
+		cs.Skip("tokenizer reads the generated document differently from the intended tree")
 		return
 	}
 	lc["balanced_inputs"]++
-	ok, why = oracle.Balanced(oracle.Tokens(out))
+	ok, why := oracle.Balanced(oracle.Tokens(out))
 	if !ok {
 		feat := "plain"
 		switch {
